@@ -31,6 +31,51 @@ struct VarLoc {
     form: String,
     a: i64,
     b: i64,
+    ops: Vec<(String, i64, i64)>,
+}
+
+/// value expressions (register reads, constants, arithmetic; ends in DW_OP_stack_value): own little stack machine
+fn eval_ops(ops: &[(String, i64, i64)], reg: &dyn Fn(i64) -> Option<u64>) -> Option<u64> {
+    let mut st: Vec<u64> = vec![];
+    for (op, a, b) in ops {
+        match op.as_str() {
+            "breg" => st.push(reg(*a)?.wrapping_add(*b as u64)),
+            "const" => st.push(*a as u64),
+            "plus_uconst" => {
+                let x = st.pop()?;
+                st.push(x.wrapping_add(*a as u64))
+            }
+            "neg" => {
+                let x = st.pop()?;
+                st.push((x as i64).wrapping_neg() as u64)
+            }
+            "not" => {
+                let x = st.pop()?;
+                st.push(!x)
+            }
+            "dup" => {
+                let x = *st.last()?;
+                st.push(x)
+            }
+            _ => {
+                let y = st.pop()?; // top
+                let x = st.pop()?; // second
+                st.push(match op.as_str() {
+                    "or" => x | y,
+                    "and" => x & y,
+                    "xor" => x ^ y,
+                    "plus" => x.wrapping_add(y),
+                    "minus" => x.wrapping_sub(y),
+                    "mul" => x.wrapping_mul(y),
+                    "shl" => x.checked_shl(y as u32).unwrap_or(0),
+                    "shr" => x.checked_shr(y as u32).unwrap_or(0),
+                    "shra" => ((x as i64) >> (y.min(63) as u32)) as u64,
+                    _ => return None,
+                })
+            }
+        }
+    }
+    st.pop()
 }
 struct VarT {
     id: u64,
@@ -176,6 +221,7 @@ fn raw_facts(cx: &Ctx, tid: i32) -> Value {
                     "breg" => reg(l.a).and_then(|r| mem_val(cx.pid, r.wrapping_add(l.b as u64), v.size)),
                     "regval" => reg(l.a).map(|r| r.wrapping_add(l.b as u64)),
                     "const" => Some(l.a as u64),
+                    "expr" => eval_ops(&l.ops, &reg),
                     _ => None,
                 };
                 let mut o = json!({"v": v.id, "e": l.e, "val": val.map(|x| typed(x, v.size, v.signed)).unwrap_or_else(|| "unk".into())});
@@ -333,6 +379,14 @@ fn main() {
                                     form: x["form"].as_str().unwrap_or("").to_string(),
                                     a: x["a"].as_i64().unwrap_or(0),
                                     b: x["b"].as_i64().unwrap_or(0),
+                                    ops: x["ops"]
+                                        .as_array()
+                                        .map(|o| {
+                                            o.iter()
+                                                .map(|t| (t[0].as_str().unwrap_or("").to_string(), t[1].as_i64().unwrap_or(0), t[2].as_i64().unwrap_or(0)))
+                                                .collect()
+                                        })
+                                        .unwrap_or_default(),
                                 })
                                 .collect()
                         })
